@@ -14,4 +14,5 @@ TRUSTED = ["CPython ast", "fxlint term normaliser"]
 def run(ck):
     ops.comparator_table(ck, "C16.R1")
     ops.conversions(ck, "C16.R2")
+    ops.value_type_fixup(ck, "C16.R3")
     pipeline.factor_rule(ck, "C01.R3")
